@@ -133,6 +133,44 @@ CHECKS = {
         design_ref="DESIGN.md 5 C17",
         technique="grid enumeration vs exact rational reference",
         note="Finite grid, not the continuum."),
+    "C09": dict(
+        category="model_checking",
+        text="Generator -> solver pipeline: argument vectors of the smaller slice are explored over "
+             "every RNG answer sequence; every distinct file is given, as written, to the real "
+             "solver under the documented flags in LP mode (every optimal class the back end may "
+             "return) and in brute-force mode; oracles: model equals file content (own parser), "
+             "valid matching / correct verdict, exact brute-force statistics.",
+        design_ref="DESIGN.md 5 C09",
+        technique="stateless exhaustive exploration over RNG answers composed with exploration over MILP answers",
+        note=LP_NOTE + " RNG owned by vf/rngenv.py (see C08)."),
+    "C10": dict(
+        category="exploration",
+        text="Abstract instances x rendering variants (whitespace, trailing blanks, info block, "
+             "final newline, order inside tie groups, 2/3-agent layout, multi-digit ids, ties in "
+             "the middle of long lists) x {-twopl on/off}; the Model built by Solver(argv) is "
+             "compared attribute by attribute with the abstract instance, plus the debug block.",
+        design_ref="DESIGN.md 5 C10",
+        technique="bounded-exhaustive input enumeration with metamorphic rendering variants",
+        note="Grammar boundary as stated in the evidence assumptions."),
+    "C14": dict(
+        category="fault_enumeration",
+        text="At every underlying solve position every failure kind a MILP back end can exhibit is "
+             "injected (transient or persistent, three value variants), all schedules with 0, 1 "
+             "and 2 deviations; answers are written in CBC's solution-file syntax so PuLP's real "
+             "status mapping runs; a virtual clock decides the Timeout rule. Oracle: no matching "
+             "or statistic line; first non-optimal status or Timeout.",
+        design_ref="DESIGN.md 5 C14",
+        technique="exhaustive fault-schedule enumeration (<=2 deviations) at the solver process seam",
+        note="Faults cannot be produced by the real CBC on demand; they are injected at pulp.apis.coin_api.subprocess. Fixed instance list."),
+    "C18": dict(
+        category="model_checking",
+        text="Explicit-state BFS over call histories on a live Solver: states are digests of the "
+             "whole object graph reached by replaying the history on a fresh real object; every "
+             "solve branches over every optimal class. Oracle: getters idempotent and non-failing "
+             "between solves; status and criterion values unchanged by re-solving; matching valid.",
+        design_ref="DESIGN.md 5 C18",
+        technique="explicit-state BFS over operation histories of the real object with state hashing",
+        note="LP mode, timeLimit=None, depth and number of solves bounded as in the evidence."),
 }
 
 NOT_YET = "check not built yet in this round (planned, see DESIGN.md section 5)"
